@@ -25,7 +25,45 @@ def load(ctx, *names):
             try: _LOADED['mods'][n] = _LOADED['imp'](n)
             finally: pysym.SYMBOLIC = old
         ns[n] = _LOADED['mods'][n]
+    _restore_module_state()
     return ns
+
+
+_SIMPLE = (int, float, str, bytes, tuple, bool, type(None), frozenset)
+
+
+def _restore_module_state():
+    """every explored path re-executes the harness in this process: module- and class-level state of the toolkit modules
+    (caches, registries, "last value" attributes) is put back to its import-time content so that no path sees what another stored"""
+    snap = _LOADED.setdefault('snap', {})
+    for name, mod in list(sys.modules.items()):
+        if getattr(mod, '__file__', None) is None or not str(mod.__file__).startswith(pysym.REPO): continue
+        owners = [mod] + [v for v in list(vars(mod).values()) if isinstance(v, type) and getattr(v, '__module__', None) == name]
+        if name not in snap:
+            conts = []; scal = []
+            for o in owners:
+                keys = set()
+                for k, v in list(vars(o).items()):
+                    if k.startswith('__'): continue
+                    if type(v) in (dict, list, set) and len(v) <= 100000: conts.append((v, type(v)(v)))
+                    if type(v) in _SIMPLE: scal.append((o, k, v))
+                    keys.add(k)
+                scal.append((o, None, keys))
+            snap[name] = (conts, scal)
+        else:
+            conts, scal = snap[name]
+            for cont, saved in conts:
+                if type(cont) is list and len(cont) == len(saved) and all(a is b for a, b in zip(cont, saved)): continue
+                cont.clear()
+                if type(cont) is list: cont.extend(saved)
+                else: cont.update(saved)
+            for o, k, v in scal:
+                if k is None:
+                    if isinstance(o, type):
+                        for extra in [x for x in vars(o) if not x.startswith('__') and x not in v and type(vars(o)[x]) in _SIMPLE + (dict, list, set)]:
+                            delattr(o, extra)
+                elif vars(o).get(k, v) is not v and type(vars(o).get(k)) in _SIMPLE:
+                    setattr(o, k, v)
 
 
 class symbolic:
